@@ -529,6 +529,16 @@ fn families(l: &Lang, thorough: bool) -> Acc {
         Box::new(|x| format!("$[?{}<@.a]", x)),
         Box::new(|x| format!("$[?length(@.a)=={}]", x)),
         Box::new(|x| format!("$[?@[0:{}]]", x)),
+        Box::new(|x| format!("$[{}::0]", x)),
+        Box::new(|x| format!("$[:{}:0]", x)),
+        Box::new(|x| format!("$[{}:{}:0]", x, x)),
+        Box::new(|x| format!("$[{}::-1]", x)),
+        Box::new(|x| format!("$[0:{}:1]", x)),
+        Box::new(|x| format!("$[{}:0]", x)),
+        Box::new(|x| format!("$[0:0:{}]", x)),
+        Box::new(|x| format!("$[?@[{}::0]]", x)),
+        Box::new(|x| format!("$[?count(@[:{}:0])==0]", x)),
+        Box::new(|x| format!("$[1,{}::0]", x)),
         Box::new(|x| format!("$[?length({})==1]", x)),
         Box::new(|x| format!("$[?match({},'a')]", x)),
         Box::new(|x| format!("$[?search('a',{})]", x)),
@@ -973,13 +983,16 @@ pub fn run(prop: &str, tier: &str) -> i32 {
         let a = stage("integer cube (index / slice / singular index, parsed and programmatic)", crate::checks::robust::cube(&run), t0);
         total = total.merge(a);
         let t0 = std::time::Instant::now();
+        let a = stage("regular-expression pattern pipeline (stress patterns and nesting ladders 1..300)", crate::checks::robust::regex_patterns(&run), t0);
+        total = total.merge(a);
+        let t0 = std::time::Instant::now();
         let a = stage("depth ladder (isolated subprocesses)", crate::checks::robust::ladder(&run), t0);
         total = total.merge(a);
     }
     let rule = match prop {
         "C06" => "every string of five exhaustively enumerated spaces (token strings, character strings, generated ABNF sentences with blank-space variants, one-position families, single-token edits) and of 14 nesting ladders (depth 1..10 (14), each sentence parsed as the first parse of a fresh process) is classified by the RFC recogniser and parsed by the real parser; a C06 case is a string the recogniser calls valid; distinct_nontrivial = distinct valid strings (hash set)",
         "C07" => "same enumeration; a C07 case is a string the recogniser calls invalid; distinct_nontrivial = distinct invalid strings from the near-miss spaces (families, blank variants, single-token edits of valid sentences)",
-        _ => "same enumeration; every string is parsed under catch_unwind with overflow checks on; every accepted string is evaluated on a 12-document panel through query_with_path, query, query_only_path and js_path_process and must return Ok; distinct_nontrivial = distinct accepted strings",
+        _ => "same enumeration; every string is parsed under catch_unwind with overflow checks on; every accepted string is evaluated on a 12-document panel through query_with_path, query, query_only_path and js_path_process and must return Ok; regular-expression patterns (a stress list plus six nesting / repetition ladders over every depth 1..300) as literals and from the document through match and search must evaluate to Ok; distinct_nontrivial = distinct accepted strings",
     };
     run.finish(
         total,
